@@ -59,6 +59,113 @@ Proof. revert n; induction a; intros; cbn; auto. Qed.
 Lemma iter_inc_S' k n : iter_inc (S k) n = inc_nonce (iter_inc k n).
 Proof. replace (S k) with (k + 1)%nat by lia. now rewrite iter_inc_add. Qed.
 
+Fixpoint le_val (l : bytes) : N := match l with [] => 0 | b :: r => b + 256 * le_val r end.
+Definition all_bytes (l : bytes) : Prop := Forall (fun b => b < 256) l.
+
+Lemma pow_S n : 256 ^ N.of_nat (S n) = 256 * 256 ^ N.of_nat n.
+Proof. now rewrite Nat2N.inj_succ, N.pow_succ_r'. Qed.
+Lemma pow_pos n : 0 < 256 ^ N.of_nat n.
+Proof. apply N.neq_0_lt_0. apply N.pow_nonzero. lia. Qed.
+
+Lemma inc_rev_length l : length (inc_rev l) = length l.
+Proof. induction l as [|b r IH]; [reflexivity|]. cbn. destruct (_ =? 0); cbn; now rewrite ?IH. Qed.
+
+Lemma inc_rev_ok l : all_bytes l -> all_bytes (inc_rev l).
+Proof.
+  induction 1 as [|b r Hb Hr IH]; [constructor|]. cbn.
+  destruct ((b + 1) mod 256 =? 0) eqn:E; constructor; auto; lia.
+Qed.
+
+Lemma le_val_bound l : all_bytes l -> le_val l < 256 ^ N.of_nat (length l).
+Proof.
+  induction 1 as [|b r Hb Hr IH]; [cbn; lia|]. cbn [le_val length]. rewrite pow_S. lia.
+Qed.
+
+Lemma inc_rev_val l : all_bytes l -> le_val (inc_rev l) = (le_val l + 1) mod 256 ^ N.of_nat (length l).
+Proof.
+  induction 1 as [|b r Hb Hr IH]; [reflexivity|]. cbn [inc_rev le_val length]. rewrite pow_S.
+  pose proof (le_val_bound r Hr) as Hv. pose proof (pow_pos (length r)) as HP.
+  set (P := 256 ^ N.of_nat (length r)) in *. set (v := le_val r) in *.
+  destruct ((b + 1) mod 256 =? 0) eqn:E.
+  - cbn [le_val]. rewrite IH. assert (b = 255) by lia. subst b.
+    replace (255 + 256 * v + 1) with (256 * (v + 1)) by lia.
+    rewrite N.mul_mod_distr_l by lia. lia.
+  - cbn [le_val]. rewrite (N.mod_small (b + 1) 256) by lia. rewrite (N.mod_small _ (256 * P)) by lia. lia.
+Qed.
+
+Lemma le_val_inj : forall l1 l2, length l1 = length l2 -> all_bytes l1 -> all_bytes l2 ->
+  le_val l1 = le_val l2 -> l1 = l2.
+Proof.
+  induction l1 as [|a r IH]; intros [|b s] Hl H1 H2 Hv; try discriminate; [reflexivity|].
+  apply Forall_cons_iff in H1 as [Ha H1]. apply Forall_cons_iff in H2 as [Hb H2].
+  cbn [le_val] in Hv. injection Hl as Hl.
+  assert (a = b /\ le_val r = le_val s) as [-> Hr] by lia.
+  f_equal. now apply IH.
+Qed.
+
+Definition nonce_val (n : bytes) : N := le_val (rev n).
+
+Lemma all_bytes_rev l : all_bytes l -> all_bytes (rev l).
+Proof. intros H. apply Forall_rev. exact H. Qed.
+
+Lemma inc_nonce_length n : length (inc_nonce n) = length n.
+Proof. unfold inc_nonce. now rewrite rev_length, inc_rev_length, rev_length. Qed.
+Lemma inc_nonce_ok n : all_bytes n -> all_bytes (inc_nonce n).
+Proof. intros H. unfold inc_nonce. apply all_bytes_rev, inc_rev_ok, all_bytes_rev, H. Qed.
+Lemma inc_nonce_val n : all_bytes n ->
+  nonce_val (inc_nonce n) = (nonce_val n + 1) mod 256 ^ N.of_nat (length n).
+Proof.
+  intros H. unfold nonce_val, inc_nonce. rewrite rev_involutive, inc_rev_val by now apply all_bytes_rev.
+  now rewrite rev_length.
+Qed.
+
+Lemma iter_inc_length k : forall n, length (iter_inc k n) = length n.
+Proof. induction k; intros n; cbn; [reflexivity|]. now rewrite IHk, inc_nonce_length. Qed.
+Lemma iter_inc_ok k : forall n, all_bytes n -> all_bytes (iter_inc k n).
+Proof. induction k; intros n H; cbn; [exact H|]. apply IHk, inc_nonce_ok, H. Qed.
+Lemma iter_inc_val k : forall n, all_bytes n ->
+  nonce_val (iter_inc k n) = (nonce_val n + N.of_nat k) mod 256 ^ N.of_nat (length n).
+Proof.
+  induction k; intros n H.
+  - cbn [iter_inc]. rewrite N.add_0_r. symmetry. apply N.mod_small.
+    unfold nonce_val. rewrite <- rev_length. apply le_val_bound, all_bytes_rev, H.
+  - cbn [iter_inc]. rewrite IHk by now apply inc_nonce_ok. rewrite inc_nonce_val by exact H.
+    rewrite inc_nonce_length. pose proof (pow_pos (length n)).
+    rewrite N.add_mod_idemp_l by lia. f_equal. lia.
+Qed.
+
+Lemma mod_shift_inj M a d : 0 < M -> d < M -> (a + d) mod M = a mod M -> d = 0.
+Proof.
+  intros HM Hd E. rewrite <- N.add_mod_idemp_l in E by lia.
+  pose proof (N.mod_upper_bound a M ltac:(lia)) as Hr. set (r := a mod M) in *.
+  destruct (N.lt_ge_cases (r + d) M) as [Hlt|Hge].
+  - rewrite N.mod_small in E by exact Hlt. lia.
+  - assert (E2 : (r + d) mod M = r + d - M).
+    { symmetry. apply (N.mod_unique _ _ 1); lia. }
+    lia.
+Qed.
+
+Lemma iter_inc_inj n i j : all_bytes n ->
+  N.of_nat i < 256 ^ N.of_nat (length n) -> N.of_nat j < 256 ^ N.of_nat (length n) ->
+  iter_inc i n = iter_inc j n -> i = j.
+Proof.
+  intros H Hi Hj E. apply (f_equal nonce_val) in E. rewrite !iter_inc_val in E by exact H.
+  pose proof (pow_pos (length n)) as HP. set (M := 256 ^ N.of_nat (length n)) in *.
+  destruct (Nat.le_ge_cases i j) as [Hle|Hle].
+  - assert (N.of_nat (j - i) = 0); [|lia].
+    apply (mod_shift_inj M (nonce_val n + N.of_nat i)); [lia|lia|].
+    rewrite E. f_equal. lia.
+  - assert (N.of_nat (i - j) = 0); [|lia].
+    apply (mod_shift_inj M (nonce_val n + N.of_nat j)); [lia|lia|].
+    rewrite <- E. f_equal. lia.
+Qed.
+
+Lemma app_same_len (a c b d : bytes) : length a = length c -> a ++ b = c ++ d -> a = c.
+Proof.
+  revert c; induction a as [|x a IH]; intros [|y c] Hl H; try discriminate; [reflexivity|].
+  cbn in H. injection H as -> H. injection Hl as Hl. f_equal. now apply IH.
+Qed.
+
 Lemma take_rest (size : nat) (l : bytes) : firstn size l ++ skipn (length (firstn size l)) l = l.
 Proof.
   rewrite firstn_length. destruct (Nat.le_ge_cases size (length l)).
@@ -354,4 +461,529 @@ Section AEAD.
       split; [|exact Hall]. cbn in HW. rewrite <- HW. apply prefix_app_r.
     Qed.
   End HONEST.
+
+  (* ---------------- adversarial wire ---------------- *)
+  (* the ciphertexts the writer produced for the plaintext frames qs: (nonce, plaintext, sealed) *)
+  Fixpoint genuine (key nonce : bytes) (qs : list bytes) : list (bytes * bytes * bytes) :=
+    match qs with
+    | [] => []
+    | p :: r => (nonce, p, seal key nonce p) :: genuine key (inc_nonce nonce) r
+    end.
+
+  Lemma genuine_In key : forall qs m n p c,
+    In (n, p, c) (genuine key m qs) <->
+    exists i, nth_error qs i = Some p /\ n = iter_inc i m /\ c = seal key n p.
+  Proof.
+    induction qs as [|q r IH]; intros m n p c; cbn [genuine In].
+    - split; [tauto|]. intros (i & H & _). destruct i; discriminate.
+    - split.
+      + intros [E|H].
+        * inversion E; subst. exists 0%nat. now repeat split.
+        * apply IH in H as (i & H1 & H2 & H3). exists (S i). now repeat split.
+      + intros ([|i] & H1 & H2 & H3).
+        * left. cbn in H1, H2. inversion H1; subst. reflexivity.
+        * right. apply IH. exists i. now repeat split.
+  Qed.
+
+  Lemma parse_frame_inv w n sealed rest : parse_frame w = PFrame n sealed rest ->
+    exists a b x y, w = a :: b :: x :: y :: sealed ++ rest /\ n = a * 256 + b /\
+                    length sealed = (N.to_nat n + overhead)%nat.
+  Proof.
+    unfold parse_frame, Model_SecureChan.parse_frame.
+    destruct w as [|a [|b [|x [|y w1]]]]; try discriminate.
+    destruct (Nat.ltb_spec (length w1) (N.to_nat (a * 256 + b) + overhead)); [discriminate|].
+    intros E; inversion E; subst; clear E. exists a, b, x, y.
+    rewrite firstn_skipn. split; [reflexivity|]. split; [reflexivity|].
+    rewrite firstn_length. lia.
+  Qed.
+
+  Lemma firstn_S_nth (l : list bytes) j p : nth_error l j = Some p -> firstn (S j) l = firstn j l ++ [p].
+  Proof.
+    revert j; induction l as [|a l IH]; intros [|j] H; try discriminate.
+    - cbn in H. inversion H; subst. reflexivity.
+    - cbn in H. change (firstn (S (S j)) (a :: l)) with (a :: firstn (S j) l). rewrite (IH _ H). reflexivity.
+  Qed.
+
+  Lemma concat_firstn_prefix (l : list bytes) j : prefix (concat (firstn j l)) (concat l).
+  Proof. exists (concat (skipn j l)). now rewrite <- concat_app, firstn_skipn. Qed.
+
+  Section ADVERSARY.
+    Variables (key n0 : bytes) (ps : list bytes).
+    (* ideal AEAD for a key with one writer: under this key exactly the
+       ciphertexts the writer produced open, each under its own nonce, to its own plaintext *)
+    Hypothesis ideal : forall n c p, open key n c = Some p <-> In (n, p, c) (genuine key n0 ps).
+    Hypothesis ps_ok : Forall okp ps.
+    Hypothesis n0_ok : all_bytes n0.
+    Hypothesis no_wrap : N.of_nat (length ps) < 256 ^ N.of_nat (length n0).
+
+    Lemma open_at j plain sealed : (j <= length ps)%nat ->
+      open key (iter_inc j n0) sealed = Some plain ->
+      nth_error ps j = Some plain /\ sealed = seal key (iter_inc j n0) plain.
+    Proof.
+      intros Hj H. apply ideal, genuine_In in H as (i & H1 & H2 & H3).
+      assert (Hi : (i < length ps)%nat) by (apply nth_error_Some; congruence).
+      assert (j = i) by (apply (iter_inc_inj n0); [exact n0_ok|lia|lia|exact H2]).
+      subst i. now split.
+    Qed.
+
+    Lemma open_genuine j p : nth_error ps j = Some p ->
+      open key (iter_inc j n0) (seal key (iter_inc j n0) p) = Some p.
+    Proof. intros H. apply ideal, genuine_In. exists j. now repeat split. Qed.
+
+    Definition rinv (st : rstate) (D : bytes) (j : nat) : Prop :=
+      (j <= length ps)%nat /\ rs_nonce st = iter_inc j n0 /\ D ++ rs_pending st = concat (firstn j ps).
+
+    (* the wire begins with the genuine i-th frame (header bytes 2 and 3 are not looked at) *)
+    Definition genuine_start (i : nat) (w : bytes) : Prop :=
+      exists a b x y p rest, w = a :: b :: x :: y :: seal key (iter_inc i n0) p ++ rest /\
+        nth_error ps i = Some p /\ a * 256 + b = N.of_nat (length p).
+
+    Lemma read_adv st D j w closed size : rinv st D j ->
+      forall res st' w', read key st w closed size = (res, st', w') ->
+      (exists j', rinv st' (D ++ r_data res) j') /\
+      r_n res = N.of_nat (length (r_data res)) /\ (length (r_data res) <= size)%nat /\
+      (r_err res <> None -> r_data res = [] /\ r_n res = 0 /\ st' = st /\ (w' = w \/ w' = [] \/ r_err res = Some EAuth)) /\
+      (r_err res = None -> rs_pending st = [] -> genuine_start j w).
+    Proof.
+      intros (Hj & Hn & HD) res st' w'. unfold read, Model_SecureChan.read, read_v.
+      destruct (rs_pending st) as [|x pend] eqn:Ep.
+      - destruct (parse_frame w) as [| |n none|n sealed rest] eqn:P.
+        + intros [= <- <- <-]. cbn. rewrite app_nil_r.
+          split; [exists j; unfold rinv; rewrite Ep; auto|]. split; [reflexivity|]. split; [lia|].
+          split; [intros _; repeat split; auto|discriminate].
+        + intros [= <- <- <-]. cbn. rewrite app_nil_r.
+          split; [exists j; unfold rinv; rewrite Ep; auto|]. split; [reflexivity|]. split; [lia|].
+          split; [intros _; repeat split; auto|discriminate].
+        + intros [= <- <- <-]. cbn. rewrite app_nil_r.
+          split; [exists j; unfold rinv; rewrite Ep; auto|]. split; [reflexivity|]. split; [lia|].
+          split; [intros _; repeat split; auto|discriminate].
+        + destruct (open key (rs_nonce st) sealed) as [plain|] eqn:O.
+          * intros [= <- <- <-]. cbn [r_data r_n r_err mk_res].
+            rewrite Hn in O. destruct (open_at j plain sealed Hj O) as (Hnth & Hs).
+            assert (Hlt : (j < length ps)%nat) by (apply nth_error_Some; congruence).
+            split; [|split; [reflexivity|split; [apply firstn_le_length|split; [congruence|]]]].
+            -- exists (S j). unfold rinv. cbn [rs_nonce rs_pending]. split; [lia|].
+               split; [now rewrite Hn, iter_inc_S'|].
+               rewrite <- app_assoc, take_rest, (firstn_S_nth _ _ _ Hnth), concat_app. cbn [concat].
+               rewrite app_nil_r in *. now rewrite HD.
+            -- intros _ _. apply parse_frame_inv in P as (a & b & x & y & Hw & Hnab & Hlen).
+               exists a, b, x, y, plain, rest. subst sealed. split; [exact Hw|]. split; [exact Hnth|].
+               rewrite seal_len in Hlen. lia.
+          * intros [= <- <- <-]. cbn. rewrite app_nil_r.
+            split; [exists j; unfold rinv; rewrite Ep; auto|]. split; [reflexivity|]. split; [lia|].
+            split; [intros _; repeat split; auto|discriminate].
+      - intros [= <- <- <-]. cbn [r_data r_n r_err mk_res].
+        split; [|split; [reflexivity|split; [apply firstn_le_length|split; [congruence|discriminate]]]].
+        exists j. unfold rinv. cbn [rs_nonce rs_pending]. split; [exact Hj|]. split; [exact Hn|].
+        now rewrite <- app_assoc, take_rest.
+    Qed.
+
+    Definition res_sane (size : nat) (r : rres) : Prop :=
+      r_n r = N.of_nat (length (r_data r)) /\ (length (r_data r) <= size)%nat /\
+      (r_err r <> None -> r_data r = [] /\ r_n r = 0).
+
+    Lemma rinv_prefix st D j : rinv st D j -> prefix D (concat ps).
+    Proof.
+      intros (_ & _ & HD). eapply prefix_trans; [|apply (concat_firstn_prefix ps j)].
+      rewrite <- HD. apply prefix_app_r.
+    Qed.
+
+    (* whatever bytes are on the wire: only a prefix of the written stream is ever delivered *)
+    Lemma adv_prefix closed : forall sizes st D j w, rinv st D j ->
+      let rs := read_all key st w closed sizes in
+      prefix (D ++ delivered rs) (concat ps) /\ Forall2 res_sane sizes rs.
+    Proof.
+      induction sizes as [|s r IH]; intros st D j w Hinv.
+      - cbn. rewrite app_nil_r. split; [eapply rinv_prefix; eauto|constructor].
+      - cbn zeta. rewrite read_all_cons.
+        destruct (read key st w closed s) as [[res st'] w'] eqn:E.
+        destruct (read_adv st D j w closed s Hinv _ _ _ E) as ((j' & Hinv') & Hn & Hle & Herr & _).
+        destruct (IH st' (D ++ r_data res) j' w' Hinv') as (IH1 & IH2).
+        unfold delivered in *. cbn [map concat]. rewrite app_assoc. split; [exact IH1|].
+        constructor; [|exact IH2]. split; [exact Hn|]. split; [exact Hle|].
+        intros H. destruct (Herr H) as (? & ? & _). now split.
+    Qed.
+
+    Lemma read_all_stop_cons st w closed s r :
+      read_all_stop key st w closed (s :: r) =
+      let '(res, st', w') := read key st w closed s in
+      if hard_err res then [res] else res :: read_all_stop key st' w' closed r.
+    Proof. reflexivity. Qed.
+
+    (* a consumer that closes at the first error receives nothing from the
+       position where the wire stops being the genuine frame sequence *)
+    Lemma tamper_stop closed : forall sizes done qs post st D w,
+      ps = done ++ qs ++ post ->
+      rs_nonce st = iter_inc (length done) n0 -> D ++ rs_pending st = concat done ->
+      ~ genuine_start (length (done ++ qs)) w ->
+      prefix (D ++ delivered (read_all_stop key st (enc_frames key (iter_inc (length done) n0) qs ++ w) closed sizes))
+             (concat (done ++ qs)).
+    Proof.
+      induction sizes as [|s r IH]; intros done qs post st D w Hps Hn HD Hng.
+      - cbn. rewrite app_nil_r, concat_app, <- HD, <- app_assoc. apply prefix_app_r.
+      - rewrite read_all_stop_cons.
+        assert (Hinv : rinv st D (length done)).
+        { unfold rinv. rewrite Hps. rewrite app_length. split; [lia|]. split; [exact Hn|].
+          rewrite firstn_app, Nat.sub_diag, firstn_all. cbn. now rewrite app_nil_r. }
+        destruct (rs_pending st) as [|x pend] eqn:Ep.
+        + rewrite app_nil_r in HD. destruct qs as [|p qs'].
+          * (* at the tamper point *)
+            rewrite enc_frames_nil. cbn [app].
+            destruct (read key st w closed s) as [[res st'] w'] eqn:E.
+            destruct (read_adv st D _ w closed s Hinv _ _ _ E) as (_ & _ & _ & Herr & Hacc).
+            destruct (r_err res) as [e|] eqn:Ee.
+            -- destruct (Herr ltac:(congruence)) as (Hd & _ & -> & Hw').
+               destruct (hard_err res) eqn:Hh.
+               ++ unfold delivered. cbn. rewrite Hd, !app_nil_r, <- HD. apply prefix_refl.
+               ++ unfold delivered in *. cbn [map concat]. rewrite Hd. cbn [app].
+                  assert (Hng' : ~ genuine_start (length (done ++ [])) w').
+                  { destruct Hw' as [->|[->|He]]; [exact Hng| |].
+                    - intros (a & b & x & y & p & rest & Hx & _). discriminate.
+                    - unfold hard_err in Hh. rewrite Ee in Hh. inversion He; subst. discriminate. }
+                  assert (HD' : D ++ rs_pending st = concat done) by (now rewrite Ep, app_nil_r).
+                  specialize (IH done [] post st D w' Hps Hn HD' Hng').
+                  rewrite enc_frames_nil in IH. exact IH.
+            -- exfalso. apply Hng. rewrite app_nil_r. apply Hacc; [reflexivity|exact Ep].
+          * (* an untouched frame *)
+            assert (Hnth : nth_error ps (length done) = Some p).
+            { rewrite Hps, nth_error_app2, Nat.sub_diag by lia. reflexivity. }
+            assert (Hp : okp p).
+            { rewrite Forall_forall in ps_ok. apply ps_ok. rewrite Hps. apply in_or_app. right. now left. }
+            rewrite enc_frames_cons, <- !app_assoc.
+            unfold read at 1, Model_SecureChan.read, read_v. rewrite Ep.
+            rewrite (parse_frame_frame p (seal key (iter_inc (length done) n0) p)) by (auto using okp_small).
+            rewrite Hn, (open_genuine _ _ Hnth).
+            cbn [hard_err r_err mk_res]. unfold delivered. cbn [map concat r_data].
+            rewrite app_assoc.
+            replace (length (firstn s p)) with (length (firstn s p)) by reflexivity.
+            specialize (IH (done ++ [p]) qs' post
+                          {| rs_nonce := inc_nonce (iter_inc (length done) n0);
+                             rs_pending := skipn (length (firstn s p)) p |}
+                          (D ++ firstn s p) w).
+            rewrite app_length in IH. cbn [length rs_nonce rs_pending] in IH.
+            replace (length done + 1)%nat with (S (length done)) in IH by lia.
+            rewrite iter_inc_S' in IH. rewrite <- !app_assoc in IH. cbn [app] in IH.
+            unfold delivered in IH. cbn [r_data mk_res]. rewrite <- app_assoc. apply IH.
+            -- exact Hps.
+            -- reflexivity.
+            -- rewrite take_rest, concat_app. cbn [concat]. rewrite app_nil_r, <- HD. reflexivity.
+            -- exact Hng.
+        + unfold read at 1, Model_SecureChan.read, read_v. rewrite Ep.
+          cbn [hard_err r_err mk_res]. unfold delivered. cbn [map concat r_data]. rewrite app_assoc.
+          apply (IH done qs post); [exact Hps|exact Hn| |exact Hng].
+          cbn [rs_pending r_data mk_res]. rewrite <- app_assoc, take_rest. exact HD.
+    Qed.
+
+    (* the Read that meets a position where the genuine frame is not present fails *)
+    Lemma tamper_read_fails i w closed size : (i <= length ps)%nat -> ~ genuine_start i w ->
+      forall res st' w', read key {| rs_nonce := iter_inc i n0; rs_pending := [] |} w closed size = (res, st', w') ->
+      r_err res <> None /\ r_data res = [] /\ r_n res = 0 /\ rs_nonce st' = iter_inc i n0.
+    Proof.
+      intros Hi Hng res st' w' E.
+      assert (Hinv : rinv {| rs_nonce := iter_inc i n0; rs_pending := [] |} (concat (firstn i ps)) i).
+      { unfold rinv. cbn. now rewrite app_nil_r. }
+      destruct (read_adv _ _ _ w closed size Hinv _ _ _ E) as (_ & _ & _ & Herr & Hacc).
+      destruct (r_err res) eqn:Ee.
+      - destruct (Herr ltac:(congruence)) as (? & ? & -> & _). repeat split; auto; congruence.
+      - exfalso. apply Hng, Hacc; reflexivity.
+    Qed.
+
+    (* the kinds of tampering: what stands at position i is not the genuine frame i *)
+    Lemma not_genuine_modified_sealed i a b x y s' rest p :
+      nth_error ps i = Some p -> length s' = length (seal key (iter_inc i n0) p) ->
+      s' <> seal key (iter_inc i n0) p -> ~ genuine_start i (a :: b :: x :: y :: s' ++ rest).
+    Proof.
+      intros Hnth Hl Hne (a' & b' & x' & y' & p' & rest' & Hw & Hnth' & _).
+      rewrite Hnth in Hnth'. inversion Hnth'; subst p'. inversion Hw as [[Ha Hb Hx Hy Hs]].
+      apply Hne. now apply (app_same_len _ _ _ _ Hl Hs).
+    Qed.
+
+    Lemma not_genuine_modified_length i a b x y rest' p :
+      nth_error ps i = Some p -> a * 256 + b <> N.of_nat (length p) ->
+      ~ genuine_start i (a :: b :: x :: y :: rest').
+    Proof.
+      intros Hnth Hne (a' & b' & x' & y' & p' & rest & Hw & Hnth' & Hab).
+      rewrite Hnth in Hnth'. inversion Hnth'; subst p'. inversion Hw; subst. now apply Hne.
+    Qed.
+
+    (* dropped / duplicated / reordered: frame j stands where frame i is expected *)
+    Lemma not_genuine_other_frame i j pi pj rest :
+      nth_error ps i = Some pi -> nth_error ps j = Some pj ->
+      hdr (length pj) ++ seal key (iter_inc j n0) pj <> hdr (length pi) ++ seal key (iter_inc i n0) pi ->
+      ~ genuine_start i (hdr (length pj) ++ seal key (iter_inc j n0) pj ++ rest).
+    Proof.
+      intros Hi Hj Hne (a & b & x & y & p & rest' & Hw & Hnth & Hab).
+      rewrite Hi in Hnth. inversion Hnth; subst p. apply Hne.
+      assert (Hpi : okp pi) by (rewrite Forall_forall in ps_ok; apply ps_ok; eapply nth_error_In; eauto).
+      assert (Hpj : okp pj) by (rewrite Forall_forall in ps_ok; apply ps_ok; eapply nth_error_In; eauto).
+      destruct (hdr_val _ (okp_small _ Hpj)) as (a1 & b1 & Eh & Hv). rewrite Eh in *.
+      cbn [app] in Hw. inversion Hw as [[Ha Hb Hx Hy Hs]]. subst a1 b1 x y.
+      assert (Hlen : length pj = length pi) by lia.
+      destruct (hdr_val _ (okp_small _ Hpi)) as (a2 & b2 & Eh2 & Hv2).
+      assert (Ehh : hdr (length pi) = [a; b; 0; 0]) by (rewrite <- Hlen; exact Eh).
+      rewrite Ehh. cbn [app]. do 4 f_equal.
+      assert (Hl2 : length (seal key (iter_inc j n0) pj) = length (seal key (iter_inc i n0) pi))
+        by (rewrite !seal_len; lia).
+      apply (app_same_len _ _ _ _ Hl2 Hs).
+    Qed.
+  End ADVERSARY.
 End AEAD.
+
+(* ------------------------------------------------------------------ *)
+(* key setup                                                            *)
+Lemma is_lower_anti p q d1 d2 : p <> q -> is_lower p q d1 = negb (is_lower q p d2).
+Proof.
+  destruct p as [px py], q as [qx qy]. intros Hne. unfold is_lower. cbn [pk_x pk_y].
+  destruct (N.ltb_spec px qx), (N.ltb_spec qx px), (N.eqb_spec qx px), (N.eqb_spec px qx);
+    try lia; try reflexivity.
+  destruct (N.ltb_spec py qy), (N.ltb_spec qy py), (N.eqb_spec qy py), (N.eqb_spec py qy);
+    try lia; try reflexivity.
+  exfalso. apply Hne. congruence.
+Qed.
+
+Lemma is_lower_same p d : is_lower p p d = d.
+Proof.
+  destruct p as [px py]. unfold is_lower. cbn [pk_x pk_y].
+  rewrite !N.ltb_irrefl, !N.eqb_refl. reflexivity.
+Qed.
+
+Section KEYS.
+  Variable priv : Type.
+  Variable shared : Type.
+  Variable pub_of : priv -> pubkey.
+  Variable ecdh : priv -> pubkey -> shared.
+  Variable kdf : shared -> nat -> nat -> bytes.
+  Hypothesis ecdh_comm : forall a b, ecdh a (pub_of b) = ecdh b (pub_of a).
+  Hypothesis kdf_inj : forall z len i j, kdf z len i = kdf z len j -> i = j.
+
+  Notation setup := (setup priv shared pub_of ecdh kdf).
+
+  Lemma directions_gen a b da db sa num ka kb :
+    (pub_of a <> pub_of b \/ da = negb db) ->
+    setup a (Some (pub_of b)) da sa num = Some ka ->
+    setup b (Some (pub_of a)) db sa num = Some kb ->
+    k_extra ka = k_extra kb /\ k_secret ka = k_secret kb /\
+    forall ina outa inb outb,
+      conn_secrets ka sa = Some (ina, outa) -> conn_secrets kb sa = Some (inb, outb) ->
+      outa = inb /\ ina = outb /\ ((2 <= num)%nat -> outa <> ina).
+  Proof.
+    intros Hd Ha Hb. unfold setup, Model_SecureChan.setup in *.
+    inversion Ha; subst ka; clear Ha. inversion Hb; subst kb; clear Hb.
+    cbn [k_extra k_secret k_lower]. rewrite (ecdh_comm b a).
+    split; [reflexivity|]. split; [reflexivity|].
+    assert (Hl : is_lower (pub_of a) (pub_of b) da = negb (is_lower (pub_of b) (pub_of a) db)).
+    { destruct (N.eq_dec (pk_x (pub_of a)) (pk_x (pub_of b))) as [Ex|Ex];
+      [destruct (N.eq_dec (pk_y (pub_of a)) (pk_y (pub_of b))) as [Ey|Ey]|].
+      - assert (E : pub_of a = pub_of b) by (destruct (pub_of a), (pub_of b); cbn in *; congruence).
+        rewrite E, !is_lower_same. destruct Hd as [Hd|Hd]; [now elim Hd|exact Hd].
+      - apply is_lower_anti. congruence.
+      - apply is_lower_anti. congruence. }
+    intros ina outa inb outb. unfold conn_secrets. cbn [k_secret k_lower]. rewrite Hl.
+    destruct sa; try discriminate;
+    (destruct num as [|[|n]]; cbn [seq map]; try discriminate;
+     [intros [= <- <-] [= <- <-]; repeat split; auto; lia|
+      destruct (is_lower (pub_of b) (pub_of a) db); cbn [negb];
+      intros [= <- <-] [= <- <-]; repeat split; auto; intros _ E; apply kdf_inj in E; discriminate]).
+  Qed.
+End KEYS.
+
+(* ------------------------------------------------------------------ *)
+(* the stand-in AEAD meets the hypotheses of the honest-channel theorems *)
+Lemma toy_tag_length oh k n p : length (toy_tag oh k n p) = oh.
+Proof. unfold toy_tag. now rewrite map_length, seq_length. Qed.
+Lemma toy_seal_len oh k n p : length (toy_seal oh k n p) = (length p + oh)%nat.
+Proof. unfold toy_seal. now rewrite app_length, toy_tag_length. Qed.
+Lemma toy_open_seal oh k n p : toy_open oh k n (toy_seal oh k n p) = Some p.
+Proof.
+  unfold toy_open. rewrite toy_seal_len.
+  replace (length p + oh - oh)%nat with (length p) by lia.
+  assert (E : firstn (length p) (toy_seal oh k n p) = p).
+  { unfold toy_seal. rewrite firstn_app, Nat.sub_diag, firstn_all. cbn. apply app_nil_r. }
+  rewrite E, bytes_eqb_refl.
+  destruct (Nat.leb_spec oh (length p + oh)); [reflexivity|lia].
+Qed.
+
+(* the table AEAD is ideal for its table when a nonce occurs once *)
+Lemma tbl_open_ideal tbl key :
+  (forall n p c p' c', In (n, p, c) tbl -> In (n, p', c') tbl -> p = p' /\ c = c') ->
+  forall n c p, tbl_open tbl key n c = Some p <-> In (n, p, c) tbl.
+Proof.
+  intros Hf n c p. unfold tbl_open. split.
+  - destruct (find _ tbl) as [[[n1 p1] c1]|] eqn:E; [|discriminate].
+    apply find_some in E as [Hin Hb]. cbn [fst snd] in *.
+    apply andb_true_iff in Hb as [H1 H2]. apply bytes_eqb_eq in H1, H2. subst.
+    intros [= <-]. exact Hin.
+  - intros Hin. destruct (find _ tbl) as [[[n1 p1] c1]|] eqn:E.
+    + apply find_some in E as [Hin1 Hb]. cbn [fst snd] in *.
+      apply andb_true_iff in Hb as [H1 H2]. apply bytes_eqb_eq in H1, H2. subst.
+      destruct (Hf _ _ _ _ _ Hin Hin1) as [-> _]. reflexivity.
+    + exfalso. pose proof (find_none _ _ E _ Hin) as Hb. cbn [fst snd] in Hb.
+      rewrite !bytes_eqb_refl in Hb. discriminate.
+Qed.
+
+(* ------------------------------------------------------------------ *)
+(* non-vacuity: concrete values meeting the hypotheses                   *)
+Definition ex_key : bytes := [9; 9; 9].
+Definition ex_n0 : bytes := [0;0;0;0;0;0;0;0;0;0;255;255].      (* next to a two-byte carry *)
+Definition ex_ps : list bytes := [[1;2;3]; [4;5]; [6]].
+Definition ex_tbl := genuine (toy_seal 16) ex_key ex_n0 ex_ps.
+
+Example ex_adversary_hyps :
+  (forall n c p, tbl_open ex_tbl ex_key n c = Some p <-> In (n, p, c) (genuine (toy_seal 16) ex_key ex_n0 ex_ps)) /\
+  Forall okp ex_ps /\ all_bytes ex_n0 /\ N.of_nat (length ex_ps) < 256 ^ N.of_nat (length ex_n0).
+Proof.
+  split; [|split; [|split]].
+  - apply tbl_open_ideal. unfold ex_tbl. vm_compute genuine.
+    intros n p c p' c' H1 H2. cbn [In] in H1, H2.
+    repeat match goal with H : _ \/ _ |- _ => destruct H | H : False |- _ => elim H end;
+      match goal with H1 : _ = _, H2 : _ = _ |- _ => inversion H1; inversion H2; subst; try discriminate; auto end.
+  - repeat constructor; unfold frame_size; cbn; lia.
+  - repeat constructor.
+  - vm_compute. reflexivity.
+Qed.
+
+(* the four kinds of tampering on the example, with the table AEAD: the read
+   that meets the tampered position fails, earlier frames are delivered *)
+Definition ex_frames := fst (seal_frames (toy_seal 16) ex_key ex_n0 ex_ps).
+Definition ex_read (w : list bytes) :=
+  map (fun r => (r_data r, r_err r))
+      (read_all (tbl_open ex_tbl) 16 ex_key {| rs_nonce := ex_n0; rs_pending := [] |} (concat w) true [8;8;8;8]%nat).
+
+Example ex_honest : ex_read ex_frames = [([1;2;3], None); ([4;5], None); ([6], None); ([], Some EEof)].
+Proof. vm_compute. reflexivity. Qed.
+Example ex_dropped : match ex_frames with [f0; f1; f2] => ex_read [f0; f2] | _ => [] end
+  = [([1;2;3], None); ([], Some EAuth); ([], Some EEof); ([], Some EEof)].
+Proof. vm_compute. reflexivity. Qed.
+Example ex_duplicated : match ex_frames with [f0; f1; f2] => ex_read [f0; f0; f1; f2] | _ => [] end
+  = [([1;2;3], None); ([], Some EAuth); ([4;5], None); ([6], None)].
+Proof. vm_compute. reflexivity. Qed.
+Example ex_swapped : match ex_frames with [f0; f1; f2] => ex_read [f1; f0; f2] | _ => [] end
+  = [([], Some EAuth); ([1;2;3], None); ([], Some EAuth); ([], Some EEof)].
+Proof. vm_compute. reflexivity. Qed.
+Example ex_modified : match ex_frames with [f0; f1; f2] => ex_read [f0; firstn 5 f1 ++ [77] ++ skipn 6 f1; f2] | _ => [] end
+  = [([1;2;3], None); ([], Some EAuth); ([], Some EAuth); ([], Some EEof)].
+Proof. vm_compute. reflexivity. Qed.
+
+(* ------------------------------------------------------------------ *)
+(* refutation of the two earlier variants of SecureAead.Read            *)
+Definition ex_zero12 : bytes := repeat 0 12.
+Definition ex_st0 := {| rs_nonce := ex_zero12; rs_pending := [] |}.
+Definition ex_write10 : bytes := [1;2;3;4;5;6;7;8;9;10].
+Definition ex_wire10 := fst (write_all (toy_seal 16) ex_key ex_zero12 [ex_write10]).
+
+(* before 735c6b7: one 10-byte write read with a 4-byte buffer *)
+Lemma prefix_variant_refuted :
+  let rs := read_all_v (toy_open 16) 16 VPreFix ex_key ex_st0 ex_wire10 true [4;4;4;4]%nat in
+  (exists r, In r rs /\ N.of_nat 4 < r_n r) /\ delivered rs <> ex_write10 /\ delivered rs = [1;2;3;4].
+Proof.
+  vm_compute. split; [|split; [discriminate|reflexivity]].
+  eexists. split; [left; reflexivity|]. reflexivity.
+Qed.
+(* the current code on the same input *)
+Example current_on_same_input :
+  map (fun r => (r_n r, r_data r)) (read_all (toy_open 16) 16 ex_key ex_st0 ex_wire10 true [4;4;4;4]%nat)
+  = [(4, [1;2;3;4]); (4, [5;6;7;8]); (2, [9;10]); (0, [])].
+Proof. vm_compute. reflexivity. Qed.
+
+(* before 089424b: a frame with one flipped ciphertext byte, 4-byte buffer:
+   n = 10 is returned together with the error although nothing was copied *)
+Definition ex_wire10_flipped := firstn 6 ex_wire10 ++ [200] ++ skipn 7 ex_wire10.
+Lemma errn_variant_refuted :
+  let rs := read_all_v (toy_open 16) 16 VErrN ex_key ex_st0 ex_wire10_flipped true [4]%nat in
+  exists r, rs = [r] /\ r_err r = Some EAuth /\ r_data r = [] /\ r_n r = 10 /\ N.of_nat 4 < r_n r.
+Proof. vm_compute. eexists. repeat split. Qed.
+Example current_on_flipped :
+  map (fun r => (r_n r, r_data r, r_err r)) (read_all (toy_open 16) 16 ex_key ex_st0 ex_wire10_flipped true [4]%nat)
+  = [(0, [], Some EAuth)].
+Proof. vm_compute. reflexivity. Qed.
+
+(* ------------------------------------------------------------------ *)
+(* the tamper / reorder statement in one piece                          *)
+Lemma tamper_reorder_rejected :
+  forall (seal : bytes -> bytes -> bytes -> bytes) (open : bytes -> bytes -> bytes -> option bytes)
+         (overhead : nat),
+  (forall k n p, length (seal k n p) = (length p + overhead)%nat) ->
+  forall (key n0 : bytes) (writes : list bytes),
+  let ps := concat (map split_frames writes) in
+  let st0 := {| rs_nonce := n0; rs_pending := [] |} in
+  (forall n c p, open key n c = Some p <-> In (n, p, c) (genuine seal key n0 ps)) ->
+  all_bytes n0 -> N.of_nat (length ps) < 256 ^ N.of_nat (length n0) ->
+  (forall (w : bytes) (closed : bool) (sizes : list nat),
+     let rs := read_all open overhead key st0 w closed sizes in
+     prefix (delivered rs) (concat writes) /\ Forall2 res_sane sizes rs) /\
+  (forall (i : nat) (w : bytes) (closed : bool) (sizes : list nat),
+     (i <= length ps)%nat -> ~ genuine_start seal key n0 ps i w ->
+     prefix (delivered (read_all_stop open overhead key st0
+                          (enc_frames seal key n0 (firstn i ps) ++ w) closed sizes))
+            (concat (firstn i ps))) /\
+  (forall (i : nat) (w : bytes) (closed : bool) (size : nat),
+     (i <= length ps)%nat -> ~ genuine_start seal key n0 ps i w ->
+     forall res st' w',
+       read open overhead key {| rs_nonce := iter_inc i n0; rs_pending := [] |} w closed size = (res, st', w') ->
+       r_err res <> None /\ r_data res = [] /\ r_n res = 0 /\ rs_nonce st' = iter_inc i n0) /\
+  (forall (i : nat) (a b x y : N) (s' rest : bytes) (p : bytes),
+     nth_error ps i = Some p -> length s' = length (seal key (iter_inc i n0) p) ->
+     s' <> seal key (iter_inc i n0) p ->
+     ~ genuine_start seal key n0 ps i (a :: b :: x :: y :: s' ++ rest)) /\
+  (forall (i : nat) (a b x y : N) (rest : bytes) (p : bytes),
+     nth_error ps i = Some p -> a * 256 + b <> N.of_nat (length p) ->
+     ~ genuine_start seal key n0 ps i (a :: b :: x :: y :: rest)) /\
+  (forall (i j : nat) (pi pj : bytes) (rest : bytes),
+     nth_error ps i = Some pi -> nth_error ps j = Some pj ->
+     hdr (length pj) ++ seal key (iter_inc j n0) pj <> hdr (length pi) ++ seal key (iter_inc i n0) pi ->
+     ~ genuine_start seal key n0 ps i (hdr (length pj) ++ seal key (iter_inc j n0) pj ++ rest)).
+Proof.
+  intros seal open overhead Hlen key n0 writes ps st0 Hideal Hn0 Hwrap.
+  assert (Hok : Forall okp ps) by apply split_all_ok.
+  split; [|split; [|split; [|split; [|split]]]].
+  - intros w closed sizes.
+    assert (Hinv : rinv n0 ps st0 [] 0) by (unfold rinv; cbn; repeat split; lia).
+    pose proof (adv_prefix seal open overhead Hlen key n0 ps Hideal Hn0 Hwrap closed sizes st0 [] 0%nat w Hinv) as H.
+    cbn zeta in *. cbn [app] in H. unfold ps in H at 1. rewrite concat_split_all in H. exact H.
+  - intros i w closed sizes Hi Hng.
+    pose proof (tamper_stop seal open overhead Hlen key n0 ps Hideal Hok Hn0 Hwrap closed sizes
+                  [] (firstn i ps) (skipn i ps) st0 [] w) as H.
+    cbn [app length iter_inc] in H. rewrite firstn_length, Nat.min_l in H by exact Hi.
+    apply H; auto. now rewrite firstn_skipn.
+  - intros i w closed size Hi Hng.
+    exact (tamper_read_fails seal open overhead Hlen key n0 ps Hideal Hn0 Hwrap i w closed size Hi Hng).
+  - intros i a b x y s' rest p. apply not_genuine_modified_sealed.
+  - intros i a b x y rest p. apply not_genuine_modified_length.
+  - intros i j pi pj rest.
+    exact (not_genuine_other_frame seal open overhead Hlen key n0 ps Hideal Hok Hwrap i j pi pj rest).
+Qed.
+
+(* non-vacuity of the remaining hypothesis sets *)
+Example ex_honest_hyps :
+  (forall k n p, length (toy_seal 16 k n p) = (length p + 16)%nat) /\
+  (forall k n p, toy_open 16 k n (toy_seal 16 k n p) = Some p).
+Proof. split; [apply toy_seal_len|apply toy_open_seal]. Qed.
+
+(* 2500 bytes in one Write (three frames), buffers of 1000, 1, 0 and 2000 bytes *)
+Example ex_big_write :
+  let w := repeat 7 2500 in
+  let wire := fst (write_all (toy_seal 16) ex_key ex_n0 [w]) in
+  map (fun r => (r_n r, r_err r))
+      (read_all (toy_open 16) 16 ex_key {| rs_nonce := ex_n0; rs_pending := [] |} wire false
+                [1000; 1; 0; 2000; 2000; 2000; 5]%nat)
+  = [(1000, None); (1, None); (0, None); (23, None); (1024, None); (452, None); (0, Some EBlock)].
+Proof. vm_compute. reflexivity. Qed.
+
+Definition ex_pub_of (d : N) : pubkey := {| pk_x := d; pk_y := d * d |}.
+Definition ex_ecdh (d : N) (p : pubkey) : N := d * pk_x p.
+Definition ex_kdf (z : N) (len i : nat) : bytes := [z; N.of_nat len; N.of_nat i].
+Example ex_keys_hyps :
+  (forall a b, ex_ecdh a (ex_pub_of b) = ex_ecdh b (ex_pub_of a)) /\
+  (forall z len i j, ex_kdf z len i = ex_kdf z len j -> i = j) /\
+  ex_pub_of 3 <> ex_pub_of 5 /\
+  exists ka kb,
+    setup N N ex_pub_of ex_ecdh ex_kdf 3 (Some (ex_pub_of 5)) false SuiteChaCha 2 = Some ka /\
+    setup N N ex_pub_of ex_ecdh ex_kdf 5 (Some (ex_pub_of 3)) true SuiteChaCha 2 = Some kb /\
+    conn_secrets ka SuiteChaCha = Some ([15; 32; 0], [15; 32; 1]) /\
+    conn_secrets kb SuiteChaCha = Some ([15; 32; 1], [15; 32; 0]).
+Proof.
+  split; [intros; unfold ex_ecdh, ex_pub_of; cbn; lia|].
+  split; [intros z len i j E; unfold ex_kdf in E; inversion E; lia|].
+  split; [discriminate|].
+  eexists _, _. repeat split.
+Qed.
